@@ -44,7 +44,7 @@ def text(e):
     if e['k'] == 'tmpl':
         return '%s{%s}' % (e['name'], ', '.join(text(a) for a in e['args']))
     if e['k'] == 'tok':
-        return e['name']
+        return '"%s"' % e['lit'] if e.get('lit') else e['name']
     if e['k'] == 'rule':
         return e['name']
     if e['k'] == 'seq':
@@ -66,6 +66,9 @@ def wrap(x):
     return text(x) if x['k'] in ('tok', 'rule', 'alt', 'maybe', 'tmpl') else '(' + text(x) + ')'
 
 
+LITERAL_ARGS = [False]
+
+
 def rand_body(rng, atoms, depth=2, tmpls=()):
     if depth <= 0 or rng.random() < 0.35:
         return rng.choice(atoms)
@@ -80,7 +83,10 @@ def rand_body(rng, atoms, depth=2, tmpls=()):
         return E.maybe(rand_body(rng, atoms, depth - 1, tmpls))
     if k == 'tmpl':
         name, nargs = rng.choice(tmpls)
-        return tmpl(name, [rng.choice(atoms) for _ in range(nargs)])
+        # in main a template argument may be a LITERAL: an anonymous terminal that takes the name of main's terminal with the
+        # same text but is filtered - t{"a"} and t{A} are different instances when written out (hunted, DESIGN 7b)
+        pool = atoms + ([dict(tok(t), keep=False, lit=ch) for t, ch in TERMS['main']] if LITERAL_ARGS[0] else [])
+        return tmpl(name, [rng.choice(pool) for _ in range(nargs)])
     x = rand_body(rng, [a for a in atoms if a['k'] == 'tok'], 0)
     return E.rep(x, 0 if k == 'star' else 1, -1)
 
@@ -174,7 +180,11 @@ def rand_system(rng):
         tmpls = tmpls + [('sep', 2)]
         trules.append({'name': 'sep', 'expand1': False, 'keepall': False, 'inline': False, 'prio': 0, 'params': ['tx', 'ts'],
                        'alts': [{'alias': '', 'body': E.seq([E.ref('tx'), E.rep(E.seq([E.ref('ts'), E.ref('tx')]), 0, -1)])}]})
-    rm, nm = mk_module('main', atoms_m + atoms_m, tmpls)
+    LITERAL_ARGS[0] = True
+    try:
+        rm, nm = mk_module('main', atoms_m + atoms_m, tmpls)
+    finally:
+        LITERAL_ARGS[0] = False
     # make sure start uses at least one imported name
     rm[0]['alts'][0]['body'] = E.seq([rm[0]['alts'][0]['body'], rng.choice(atoms_m)])
     # names of main must not collide with imported aliases
